@@ -451,6 +451,7 @@ def run(ctx: vlib.Ctx) -> None:
     try:
         correspondence(ctx, exe, worlds, workdir)
         cli_stage(ctx, exe, worlds, workdir)
+        spelling_stage(ctx, exe, worlds, workdir)
     finally:
         shutil.rmtree(workdir, ignore_errors=True)
 
@@ -695,6 +696,131 @@ def cli_stage(ctx: vlib.Ctx, exe: str, worlds: list[Tree], workdir: str) -> None
     ctx.cov["cli_comparisons"] = compared
     ctx.sample({"cli_tree": tree_str(jobs[5][2]), "ns": jobs[5][3], "explicit": jobs[5][4], "cwd": jobs[5][5], "result": results[5]})
     ctx.log(f"S2: {n_runs} mypy runs on {len(jobs)} layouts, {stops} stopped by duplicate/found-twice, {compared} comparisons")
+
+
+# ------------------------------------------------------------------------------------------- S3: path spellings
+
+def spellings(target: str, root: str, cw: str, is_dir: bool) -> dict[str, str]:
+    """Different spellings of the same path `target` (relative to the world root) as seen from cwd `cw`."""
+    ab = os.path.join(root, target)
+    rel = os.path.relpath(ab, cw)
+    d, b = os.path.split(rel)
+    dd = os.path.join(rel, "..", os.path.basename(ab)) if b in (".", "..") else os.path.join(d or ".", b, "..", b)
+    out = {"relative": rel, "absolute": ab, "dot-dotdot": dd,
+           "via-sibling": os.path.join("..", os.path.basename(cw), rel)}
+    if is_dir:
+        out["trailing-slash"] = rel + "/"
+    return out
+
+
+def spelling_case(job: tuple[str, str, Tree, dict[str, str], int, int, str, list[str], list[str]]) -> dict[str, Any]:
+    """Run mypy on the same targets (all directories or all files) in every spelling; same options, same cwd."""
+    workdir, typeshed, world, contents, ns, ex, cwd, mp, targets = job
+    from mypy import api
+    root = os.path.realpath(tempfile.mkdtemp(prefix="p", dir=workdir))
+    old = os.getcwd()
+    try:
+        materialise(world, root, lambda p: contents.get(os.path.relpath(p, root), 'x: int = ""\n'))
+        cw = os.path.normpath(os.path.join(root, cwd))
+        os.chdir(cw)
+        os.environ.pop("MYPYPATH", None)
+        if mp:
+            os.environ["MYPYPATH"] = os.pathsep.join(os.path.join(root, q) for q in mp)
+        base = ["--no-incremental", "--cache-dir=" + os.devnull, "--custom-typeshed-dir=" + typeshed, "--config-file=",
+                "--no-site-packages", "--no-error-summary", "--hide-error-context", "--no-color-output",
+                "--namespace-packages" if ns else "--no-namespace-packages"] + (["--explicit-package-bases"] if ex else [])
+        is_dir = all(os.path.isdir(os.path.join(root, t)) for t in targets)
+        per = [spellings(t, root, cw, is_dir) for t in targets]
+        res: dict[str, Any] = {}
+        for label in per[0]:
+            out, err, st = api.run(base + [sp[label] for sp in per])
+            lines, kind = canon_out(out, err, root, cw)
+            import re
+            lines = [re.sub(r'\(also at "([^"]+)"\)', lambda m: '(also at "%s")' % os.path.relpath(os.path.normpath(os.path.join(cw, m.group(1))), root), ln)
+                     for ln in lines]
+            res[label] = {"status": st, "lines": sorted(lines), "kind": kind}
+        return res
+    finally:
+        os.environ.pop("MYPYPATH", None)
+        os.chdir(old)
+        shutil.rmtree(root, ignore_errors=True)
+
+
+# layouts with overlapping import roots: (tree below the world root, file contents, imports made, (ns, explicit, mypy_path) list)
+OVERLAP_LAYOUTS: list[tuple[Tree, dict[str, str], str, list[tuple[int, int, list[str]]]]] = [
+    # package directory also on MYPYPATH: `import a` finds w/a.py, already a source as w.a
+    ({TOP: {"__init__.py": None, "a.py": None, "b.py": None}, OUT: {}}, {"w/b.py": "import a\n"}, "a",
+     [(0, 0, [TOP]), (1, 0, [TOP]), (1, 1, [TOP])]),
+    # namespace packages, no __init__: sources are `a`, `b`; `import w.a` reaches w/a.py through cwd / MYPYPATH
+    ({TOP: {"a.py": None, "b.py": None}, OUT: {}}, {"w/b.py": "import w.a\n"}, "w,w.a",
+     [(1, 0, []), (1, 0, ["."])]),
+    # nested package whose inner directory is also a root
+    ({TOP: {"__init__.py": None, "a": {"__init__.py": None, "b.py": None}, "b.py": None}, OUT: {}}, {"w/b.py": "import b as bb\nimport a.b\n"}, "b,a,a.b",
+     [(0, 0, [TOP]), (1, 1, [TOP]), (1, 0, ["w/a"])]),
+    # control: roots do not overlap
+    ({TOP: {"a": {"__init__.py": None, "b.py": None}, "b.py": None}, OUT: {}}, {"w/b.py": "import a.b\n"}, "a,a.b",
+     [(0, 0, []), (1, 1, [TOP])]),
+]
+
+
+def spelling_stage(ctx: vlib.Ctx, exe: str, worlds: list[Tree], workdir: str) -> None:
+    """The outcome (duplicate / found-twice stop, or the diagnostics) must not depend on how the paths are spelled."""
+    from concurrent.futures import ProcessPoolExecutor
+    rng = vlib.Rng(ctx.seed, "spellings")
+    typeshed = os.path.join(workdir, "typeshed")
+    if not os.path.isdir(typeshed):
+        make_typeshed(typeshed)
+    jobs: list[tuple[Any, ...]] = []
+    meta: list[dict[str, Any]] = []
+    for wd, contents, deps, optl in OVERLAP_LAYOUTS:
+        files = sorted(py_files(wd[TOP], TOP))
+        for ns, ex, mp in optl:
+            for cwd in (".", OUT, TOP):
+                for mode, targets in (("DIR", [TOP]), ("FILES", files)):
+                    jobs.append((workdir, typeshed, wd, contents, ns, ex, cwd, mp, targets))
+                    meta.append({"tree": tree_str(wd), "contents": contents, "ns": ns, "explicit": ex, "cwd": cwd, "mypy_path": mp,
+                                 "mode": mode, "targets": targets, "deps": deps})
+    pool = [w for w in worlds if 1 <= n_files(w[TOP]) <= 5]
+    for wd in rng.sample(pool, min(len(pool), ctx.n(12, 150))):
+        files = sorted(py_files(wd[TOP], TOP))
+        if not files:
+            continue
+        for ns, ex, mp in ((1, 0, []), (0, 0, [TOP]), (1, 1, [TOP])):
+            for cwd in (".", OUT):
+                for mode, targets in (("DIR", [TOP]), ("FILES", files)):
+                    jobs.append((workdir, typeshed, wd, {}, ns, ex, cwd, mp, targets))
+                    meta.append({"tree": tree_str(wd), "contents": {}, "ns": ns, "explicit": ex, "cwd": cwd, "mypy_path": mp,
+                                 "mode": mode, "targets": targets, "deps": ""})
+    with ProcessPoolExecutor(max_workers=vlib.NPROC) as exr:
+        results = list(exr.map(spelling_case, jobs, chunksize=2))
+    # the model's prediction of the outcome kind for the overlap layouts (load_roots + add_dependency)
+    mq = [qline(m["tree"], (m["ns"], m["explicit"], m["cwd"], m["mypy_path"]), f"dep {m['deps']} " + " ".join(m["targets"]))
+          for m in meta if m["deps"]]
+    mans = iter(run_driver(exe, mq)) if mq else iter([])
+    n_runs = 0
+    kinds: dict[str, int] = {}
+    for m, res in zip(meta, results):
+        n_runs += len(res)
+        ref = res["absolute"]
+        kinds[ref["kind"]] = kinds.get(ref["kind"], 0) + 1
+        for label, r in res.items():
+            if (r["kind"], r["lines"]) != (ref["kind"], ref["lines"]):
+                ctx.violation(f"C18:outcome-depends-on-path-spelling:{m['tree']}:{m['ns']}{m['explicit']}:{m['cwd']}:{m['mypy_path']}:{m['mode']}",
+                              f"same files, options and cwd, but `mypy {label} spelling` gives {r['kind']} {r['lines'][:2]} while the absolute "
+                              f"spelling gives {ref['kind']} {ref['lines'][:2]}; tree [{m['tree']}] contents {m['contents']} namespace_packages={m['ns']} "
+                              f"explicit_package_bases={m['explicit']} cwd={m['cwd']} MYPYPATH={m['mypy_path']} targets={m['targets']}",
+                              {"kind": "S3", **m, "spelling": label, "results": res})
+                break
+        if m["deps"]:
+            pred = next(mans)
+            real = {"ok": "ok", "duplicate": "duplicate", "found-twice": "found-twice"}[ref["kind"]]
+            if pred != real and not pred.startswith("ERR"):
+                ctx.broke("C", "load_graph same-file check: model vs mypy", f"tree [{m['tree']}] {m}: model {pred}, mypy {real} {ref['lines'][:2]}")
+    ctx.add("evaluations", n_runs)
+    ctx.cov["spelling_groups"] = len(jobs)
+    ctx.cov["spelling_runs"] = n_runs
+    ctx.cov["spelling_outcome_kinds"] = kinds
+    ctx.log(f"S3: {n_runs} mypy runs in {len(jobs)} (layout, options, cwd, mode) groups x path spellings; outcomes {kinds}")
 
 
 def replay(ctx: vlib.Ctx, path: str) -> None:
